@@ -326,6 +326,16 @@ func run(r *vt.Run, t vt.TB, s spec) {
 				fail("pk-index-differs", "primary key index %q, SQLite %q", sch.PrimaryKey, wantPKName)
 				return
 			}
+			if wantPKName == "" && alias == none {
+				// no primary key at all: a primary-key select has nothing to go
+				// by and says so, whatever the table's indexes are called
+				n := 0
+				if err := db.PKSelect(name, sqlittle.Key{}, func(sqlittle.Row) { n++ }); err == nil {
+					fail("pk-invented", "SQLite gives the table no primary key; PKSelect with the empty key succeeds (%d rows; indexes %v)", n, indexNames(cat))
+					return
+				}
+				r.Count("no-primary-key-tables-asked-by-primary-key", 1)
+			}
 		}
 		// every index sqlittle reports must exist in SQLite under that name
 		// with exactly those key columns, collations and directions
